@@ -41,6 +41,7 @@ func IsFault(a byte) bool { return a == F421 || a == FClose || a == FReset || a 
 type Tx struct {
 	Conn      int      // serial number of the connection
 	From      string   // as received
+	UTF8      bool     // MAIL FROM carried the SMTPUTF8 parameter
 	To        []string // recipients answered 250, as received
 	DataSeen  bool     // the message data was received completely
 	Done      bool     // SMTP: end-of-data answered 250. LMTP: every per-recipient reply was sent
@@ -51,6 +52,10 @@ type Server struct {
 	l    net.Listener
 	LMTP bool
 	UTF8 bool
+	// Strict: the server (offering SMTPUTF8) enforces RFC 6531 section 3.4: a non-ASCII address in
+	// RCPT TO is answered 553 unless the MAIL FROM of the transaction carried the SMTPUTF8 parameter
+	// (Postfix strict_smtputf8). Set before the first connection.
+	Strict bool
 
 	mu       sync.Mutex
 	nextRcpt byte
@@ -195,6 +200,12 @@ func (s *Server) handle(c net.Conn, serial int) {
 			w("250 raw.example.invalid")
 		case strings.HasPrefix(cmd, "MAIL"):
 			tx = &Tx{Conn: serial, From: angle(line)}
+			if i := strings.Index(cmd, ">"); i >= 0 && strings.Contains(cmd[i:], "SMTPUTF8") {
+				tx.UTF8 = true
+				if !s.UTF8 {
+					anomaly("SMTPUTF8 parameter although the extension is not offered")
+				}
+			}
 			s.mu.Lock()
 			s.Txs = append(s.Txs, tx)
 			s.mu.Unlock()
@@ -217,6 +228,13 @@ func (s *Server) handle(c net.Conn, serial int) {
 				anomaly("non-ASCII recipient without SMTPUTF8")
 				if !IsFault(act) {
 					w("553 5.6.7 non-ASCII address, SMTPUTF8 not offered")
+					continue
+				}
+			}
+			if s.UTF8 && !tx.UTF8 && !isASCII(a) {
+				anomaly("non-ASCII recipient in a transaction opened without the SMTPUTF8 parameter")
+				if s.Strict && !IsFault(act) {
+					w("553 5.6.7 non-ASCII address, SMTPUTF8 was not requested in MAIL FROM")
 					continue
 				}
 			}
